@@ -161,6 +161,7 @@ fn my_expand(template: &str, id: &AId) -> String {
 // ---------------------------------------------------------------- encoding (format 2)
 
 struct GenOpts {
+    big: bool, // more than 255 entries (child indices and entry count beyond one byte)
     malformed: bool,
     mode: u64, // 0 glyph-keyed only, 1 partial+glyph, 2 anything, 3 mostly invalidating, 4 table-keyed only
 }
@@ -173,7 +174,7 @@ fn gen_table(rng: &mut Rng, tag: u8, cid: u32, template: (&str, bool), o: &GenOp
         1 => *rng.pick(&[2u8, 3, 3]),
         _ => 1 + rng.below(3) as u8,
     };
-    let n = 1 + rng.below(7) as usize;
+    let n = if o.big { 256 + rng.below(40) as usize } else { 1 + rng.below(7) as usize };
     let mut entries: Vec<AEntry> = vec![];
     let mut body = BeBuffer::new();
     let mut strings: Vec<u8> = vec![];
@@ -1164,11 +1165,18 @@ struct F1Table {
     bytes: Vec<u8>,
 }
 
-fn gen_format1(rng: &mut Rng) -> F1Table {
-    let max_gm_entry: u16 = *rng.pick(&[2u16, 5, 40, 200, 254, 255, 256, 300]);
-    let max_entry: u16 = {
-        let opts: Vec<u16> = [max_gm_entry, max_gm_entry + 3, 255, 256, 257, 300, 400].into_iter().filter(|m| *m >= max_gm_entry).collect();
-        *rng.pick(&opts)
+/// family 0: small tables around the u8/u16 field-width boundary; family 1: width-boundary family for the
+/// entry index itself (bitmap lengths across 256 bytes, entries >= 2048 whose bitmap byte index does not fit a
+/// u8, aliases i / i +- 2048 with different applied bits, glyph and feature maps touching the high entries)
+fn gen_format1(rng: &mut Rng, family: u8) -> F1Table {
+    let (max_gm_entry, max_entry): (u16, u16) = if family == 0 {
+        let g: u16 = *rng.pick(&[2u16, 5, 40, 200, 254, 255, 256, 300]);
+        let opts: Vec<u16> = [g, g + 3, 255, 256, 257, 300, 400].into_iter().filter(|m| *m >= g).collect();
+        (g, *rng.pick(&opts))
+    } else {
+        let m: u16 = *rng.pick(&[255u16, 256, 257, 2047, 2048, 2049, 4095, 4095, 65535]);
+        let opts: Vec<u16> = [m, m - 1, m / 2, 2047, 2048, 2049, 2100, 300, 255].into_iter().filter(|g| *g <= m).collect();
+        (*rng.pick(&opts), m)
     };
     let wide = max_entry >= 256;
     let first_mapped: u16 = rng.below(4) as u16;
@@ -1176,6 +1184,19 @@ fn gen_format1(rng: &mut Rng) -> F1Table {
         let mut v = vec![0u16, 1, 2, max_gm_entry, max_gm_entry.saturating_sub(1), max_gm_entry / 2];
         if max_gm_entry < max_entry {
             v.push(max_gm_entry + 1); // larger than the glyph map maximum: ignored
+        }
+        if family == 1 {
+            // high entries together with their aliases modulo 2048 (256 bitmap bytes) and modulo 256
+            for h in [max_gm_entry, max_gm_entry.saturating_sub(3), 2048, 2049, 2055, 4000, 40000, 256 + 7] {
+                if h <= max_gm_entry {
+                    v.push(h);
+                    for m in [2048u16, 256, 32768] {
+                        if h >= m + 1 {
+                            v.push(h - m);
+                        }
+                    }
+                }
+            }
         }
         v
     };
@@ -1208,11 +1229,27 @@ fn gen_format1(rng: &mut Rng) -> F1Table {
     let bitmap_len = (max_entry as usize + 1 + 7) / 8;
     let mut bitmap = vec![0u8; bitmap_len];
     let mut applied = vec![];
-    let interesting: Vec<u16> = entry_index.iter().copied().chain(records.iter().flat_map(|r| (0..r.2.len() as u16).map(move |i| r.1 + i))).filter(|i| *i <= max_entry).collect();
+    let interesting: Vec<u16> = entry_index.iter().copied().chain(records.iter().flat_map(|r| (0..r.2.len() as u16).filter_map(move |i| r.1.checked_add(i)))).filter(|i| *i <= max_entry).collect();
     for i in &interesting {
         if rng.chance(1, 5) && !applied.contains(i) {
             applied.push(*i);
             bitmap[*i as usize / 8] |= 1 << (*i % 8);
+        }
+    }
+    if family == 1 {
+        // pairs i / i - 2048 (same bitmap byte modulo 256, same bit) whose applied bits differ
+        for i in &interesting {
+            if *i >= 2049 && *i - 2048 <= max_entry && rng.chance(1, 2) {
+                let (a, b) = if rng.chance(1, 2) { (*i, *i - 2048) } else { (*i - 2048, *i) };
+                if !applied.contains(&a) {
+                    applied.push(a);
+                    bitmap[a as usize / 8] |= 1 << (a % 8);
+                }
+                if let Some(pos) = applied.iter().position(|x| *x == b) {
+                    applied.remove(pos);
+                    bitmap[b as usize / 8] &= !(1 << (b % 8));
+                }
+            }
         }
     }
     let fmt = 1 + rng.below(3) as u8;
@@ -1308,10 +1345,10 @@ fn format1_generated(rng: &mut Rng, st: &mut Stats, cw: &mut CaseWriter, n: usiz
     let cp_univ: Vec<u32> = cmap.iter().map(|x| x.0).chain([0x41u32, 0x123]).collect();
     let tag_univ: Vec<u32> = [b"aalt", b"dlig", b"liga", b"null", b"smcp", b"rlig"].iter().map(|t| tag_u32(t)).collect();
     for ti in 0..n {
-        let t = gen_format1(rng);
+        let t = gen_format1(rng, if ti % 4 == 3 { 1 } else { 0 });
         // every third font also has a format-2 "IFTX" table (mixed grouping)
         let partner: Option<ATable> = if ti % 3 == 2 {
-            let o = GenOpts { malformed: false, mode: 1 + rng.below(3) };
+            let o = GenOpts { big: false, malformed: false, mode: 1 + rng.below(3) };
             let tp = *rng.pick(&TEMPLATES[..8]);
             Some(gen_table(rng, 1, 2, tp, &o, st))
         } else {
@@ -1328,7 +1365,9 @@ fn format1_generated(rng: &mut Rng, st: &mut Stats, cw: &mut CaseWriter, n: usiz
         let mut f1_idx: BTreeSet<u16> = t.entry_index.iter().copied().collect();
         for r in &t.records {
             for i in 0..r.2.len() as u16 {
-                f1_idx.insert(r.1 + i);
+                if let Some(x) = r.1.checked_add(i) {
+                    f1_idx.insert(x);
+                }
             }
         }
         let f1_uri: BTreeMap<u16, String> = f1_idx.iter().map(|i| (*i, my_expand("//h/{id}", &AId::Num(*i as u32)))).collect();
@@ -1347,7 +1386,19 @@ fn format1_generated(rng: &mut Rng, st: &mut Stats, cw: &mut CaseWriter, n: usiz
             None => format!("[{}]", c_f1),
         };
         let c_cmap = clist(cmap.iter(), |(c, g)| format!("({}, {})", c, g));
+        if t.fmt == 3 && partner.is_none() {
+            let d_all = ADef { cps: ACps::Excl(vec![]), feats: None, ds: Some(vec![]) };
+            run_f1_loop(rng, &t, &cmap, &d_all, st, cw, &format!("f1loop/{}/all", ti));
+            let d2 = ADef { cps: ACps::Incl(subset(rng, &cp_univ, 5)), feats: Some(subset(rng, &tag_univ, 3)), ds: Some(vec![]) };
+            run_f1_loop(rng, &t, &cmap, &d2, st, cw, &format!("f1loop/{}/sub", ti));
+        }
         st.count(&format!("f1gen.width{}_gm{}", if t.max_entry >= 256 { 2 } else { 1 }, if t.max_gm_entry >= 256 { 2 } else { 1 }));
+        if t.max_entry >= 2048 {
+            st.count("f1gen.bitmap_longer_than_256_bytes");
+        }
+        if t.applied.iter().any(|a| *a >= 2048) || t.applied.iter().any(|a| a.checked_add(2048).map_or(false, |x| t.entry_index.contains(&x))) {
+            st.count("f1gen.applied_bit_differs_from_alias_mod_2048");
+        }
         if t.records.iter().map(|r| r.2.len()).sum::<usize>() >= 2 {
             st.count("f1gen.several_entry_map_records");
         }
@@ -1367,7 +1418,7 @@ fn format1_generated(rng: &mut Rng, st: &mut Stats, cw: &mut CaseWriter, n: usiz
                     // ---- model case (format-1 decoder + intersection from the table bytes)
                     let sel = observe_select(&font, &real_def(&d)).unwrap_or(None);
                     let sel_ranks: Option<Vec<i64>> = sel.as_ref().map(|us| us.iter().map(|u| rank.get(u).copied().unwrap_or(-2)).collect());
-                    if di < 3 {
+                    if di < 3 && t.bytes.len() <= 1200 {
                     cw.push(format!(
                         "Case1 ({}, 7, {}, {}, {}, {})",
                         c_tables,
@@ -1456,6 +1507,145 @@ fn format1_stride_overflow_probe(st: &mut Stats) {
     }
 }
 
+// ---------------------------------------------------------------- format 1: real extension loop
+
+/// IFT_BASE's cmap / maxp (7 glyphs) plus head / loca / glyf so that glyph-keyed patches apply
+fn f1_glyf_font(ift: &[u8]) -> Vec<u8> {
+    use font_test_data::ift::IFT_BASE;
+    use write_fonts::tables::{head::Head, loca::Loca};
+    let base = FontRef::new(IFT_BASE).unwrap();
+    let mut fb = FontBuilder::new();
+    fb.add_raw(IFT_TAG, ift.to_vec());
+    let head = Head { index_to_loc_format: 0, ..Default::default() };
+    fb.add_table(&head).unwrap();
+    fb.add_table(&Loca::new(vec![0u32, 2, 4, 4, 6, 8, 8, 10])).unwrap();
+    fb.add_raw(Tag::new(b"glyf"), vec![1u8, 2, 3, 4, 5, 6, 7, 8, 9, 10]);
+    fb.copy_missing_tables(base);
+    fb.build()
+}
+
+/// select -> fetch -> apply rounds on a glyph-keyed format-1 table: every round is Err or progress, an applied
+/// entry (whatever its index) is never offered again, the run ends within the cap; one model case per round.
+fn run_f1_loop(rng: &mut Rng, t: &F1Table, cmap: &[(u32, u32)], d: &ADef, st: &mut Stats, cw: &mut CaseWriter, key: &str) {
+    use shared_brotli_patch_decoder::NoopBrotliDecoder;
+    let mut table = t.bytes.clone();
+    let rd = real_def(d);
+    let mut pd: HashMap<String, UriStatus> = HashMap::new();
+    let cap = 10usize;
+    let mut finished = false;
+    let c_cmap = clist(cmap.iter(), |(c, g)| format!("({}, {})", c, g));
+    for round in 0..cap {
+        let font = f1_glyf_font(&table);
+        let (off, sel) = match (observe_offered(&font, &rd), observe_select(&font, &rd)) {
+            (Ok(a), Ok(b)) => (a, b),
+            _ => {
+                st.oracle_failure(json!({"key": "extension:panic", "case": key, "what": "panic in selection during a format-1 extension"}));
+                return;
+            }
+        };
+        let (Some(cands), Some(uris)) = (off, sel) else {
+            st.oracle_failure(json!({"key": "format1:unexpected-error", "case": key, "what": "selection failed during a format-1 extension"}));
+            return;
+        };
+        // an entry whose applied bit is set in the table must not be offered
+        for o in &cands {
+            let idx = o.bit - 36 * 8;
+            if table[36 + idx / 8] & (1 << (idx % 8)) != 0 {
+                st.oracle_failure(json!({"key": "extension:applied-entry-still-offered", "case": key, "what": "a format-1 entry whose applied bit is set is offered", "entry": idx, "round": round, "max_entry": t.max_entry}));
+                return;
+            }
+        }
+        // model case for this round's table bytes
+        let uri_of: BTreeMap<u16, String> = cands.iter().map(|o| ((o.bit - 288) as u16, o.uri.clone().unwrap_or_default())).collect();
+        let all: BTreeSet<String> = uri_of.values().cloned().collect();
+        let rank: BTreeMap<String, i64> = all.iter().enumerate().map(|(i, u)| (u.clone(), i as i64)).collect();
+        if table.len() <= 1200 {
+            cw.push(format!(
+                "Case1 ([T1 (mkF1 0 1 true {} {})], 7, {}, {}, {}, {})",
+                cbytes(&table),
+                clist(uri_of.iter(), |(i, u)| format!("({}, {})", i, rank[u])),
+                c_cmap,
+                c_def(d),
+                copt(Some(clist(cands.iter(), |o| c_obs(o, &rank)))),
+                copt(Some(czlist(uris.iter().map(|u| rank.get(u).copied().unwrap_or(-2) as i128))))
+            ));
+        }
+        if uris.is_empty() {
+            finished = true;
+            st.count("f1loop.fixpoint");
+            break;
+        }
+        for u in &uris {
+            pd.entry(u.clone()).or_insert_with(|| UriStatus::Pending(noop_glyph_keyed_patch(1)));
+        }
+        let before: Vec<(String, bool)> = {
+            let mut v: Vec<(String, bool)> = pd.iter().map(|(u, s)| (u.clone(), matches!(s, UriStatus::Pending(_)))).collect();
+            v.sort();
+            v
+        };
+        let fbytes = font.clone();
+        let rdc = rd.clone();
+        let pdref = &mut pd;
+        let res = catch(std::panic::AssertUnwindSafe(move || {
+            let f = FontRef::new(&fbytes).unwrap();
+            let g = PatchGroup::select_next_patches(f, &rdc).unwrap();
+            g.apply_next_patches_with_decoder(pdref, &NoopBrotliDecoder).map_err(|e| format!("{:?}", e))
+        }));
+        st.evaluations += 3;
+        let after: Vec<(String, bool)> = {
+            let mut v: Vec<(String, bool)> = pd.iter().map(|(u, s)| (u.clone(), matches!(s, UriStatus::Pending(_)))).collect();
+            v.sort();
+            v
+        };
+        match res {
+            Err(p) => {
+                st.oracle_failure(json!({"key": "extension:panic", "case": key, "what": "panic in apply_next_patches (format 1)", "panic": p}));
+                return;
+            }
+            Ok(Err(e)) => {
+                // with fresh patches for every group URI a round can only fail when everything offered was applied before
+                st.count(&format!("f1loop.round_err.{}", e.split('(').next().unwrap_or("")));
+                if before.iter().any(|(u, p)| *p && uris.contains(u)) {
+                    st.oracle_failure(json!({"key": "extension:error-with-pending-uris", "case": key, "what": "format-1 round failed although a URI of the group was pending", "err": e, "round": round}));
+                }
+                finished = true;
+                break;
+            }
+            Ok(Ok(new_font)) => {
+                st.count("f1loop.round_ok");
+                let progressed = before.iter().any(|(u, p)| *p && uris.contains(u) && after.contains(&(u.clone(), false)));
+                if !progressed {
+                    st.oracle_failure(json!({"key": "extension:no-progress-round", "case": key, "what": "format-1 round returned Ok without moving a URI from Pending to Applied", "round": round}));
+                    return;
+                }
+                let Some(nt) = table_bytes_of(&new_font, 0) else {
+                    st.oracle_failure(json!({"key": "extension:table-lost", "case": key, "what": "IFT table missing after application"}));
+                    return;
+                };
+                // exactly the offered entries get their own bit (at byte idx/8, bit idx%8)
+                let blen = (t.max_entry as usize + 1 + 7) / 8;
+                let mut expect = table.clone();
+                for o in &cands {
+                    let idx = o.bit - 288;
+                    expect[36 + idx / 8] |= 1 << (idx % 8);
+                }
+                if nt.len() != table.len() || nt[36..36 + blen] != expect[36..36 + blen] {
+                    st.oracle_failure(json!({"key": "extension:wrong-applied-bits", "case": key, "what": "the applied bitmap after the round is not the old bitmap plus the bits of the offered entries", "round": round, "max_entry": t.max_entry}));
+                    return;
+                }
+                if cands.iter().any(|o| o.bit - 288 >= 2048) {
+                    st.count("f1loop.high_entry_applied");
+                }
+                table = nt;
+            }
+        }
+        let _ = rng;
+    }
+    if !finished {
+        st.oracle_failure(json!({"key": "extension:no-progress-round", "case": key, "what": "format-1 extension did not reach a fixpoint or an error within the round cap", "cap": cap}));
+    }
+}
+
 // ---------------------------------------------------------------- main
 
 fn main() {
@@ -1476,7 +1666,8 @@ fn main() {
     let nfonts = if thorough { 3600 } else { 450 };
     for fi in 0..nfonts {
         let malformed = fi % 9 == 8;
-        let o = GenOpts { malformed, mode: if fi % 8 == 5 && !malformed && fi % 9 != 7 { 1 } else if fi % 5 == 4 && !malformed && fi % 9 != 7 { 4 } else { rng.below(4) } };
+        let big = fi % 150 == 77 && !malformed;
+        let o = GenOpts { big, malformed, mode: if fi % 8 == 5 && !malformed && fi % 9 != 7 { 1 } else if fi % 5 == 4 && !malformed && fi % 9 != 7 { 4 } else { rng.below(4) } };
         let layout = rng.below(20);
         let same_cid = rng.chance(1, 15);
         let mut tables: Vec<ATable> = vec![];
@@ -1530,7 +1721,7 @@ fn main() {
                     }
                 }
             }
-            if ai == 0 && o.mode == 0 && !malformed && fi % 9 != 7 && !same_cid {
+            if ai == 0 && o.mode == 0 && !malformed && fi % 9 != 7 && !same_cid && !big {
                 for li in 0..3 {
                     let d = if li == 0 { ADef { cps: ACps::Excl(vec![]), feats: None, ds: None } } else { gen_def(&mut rng) };
                     run_glyph_loop(&mut rng, &tables, &d, &rank, &mut st, &mut cw, &format!("font{}/gloop{}", fi, li));
@@ -1539,6 +1730,9 @@ fn main() {
             let font = build_font(&tables);
             let all_obs = observe_offered(&font, &SubsetDefinition::all());
             for di in 0..6 {
+                if big && (ai == 1 || di >= 2) {
+                    continue;
+                }
                 let d = if di == 0 && ai == 0 { ADef { cps: ACps::Excl(vec![]), feats: None, ds: None } } else { gen_def(&mut rng) };
                 let rd = real_def(&d);
                 let off = observe_offered(&font, &rd);
